@@ -133,4 +133,17 @@ def run(rep, tier, seed, replay):
                 else:
                     rep.stats["one error item per unreadable directory, naming it"] += 1
                     rep.sample({"walk": c.describe(), "error_items": len(errs), "ok_entries": len(oks)})
+                # a link whose target is missing, or that re-enters its ancestors, is one error item naming it (links
+                # read as their targets); such links that lie behind another link are not judged here
+                if c.link == "t":
+                    canon = lambda p: "/".join(x for x in (p or "").split("/") if x)
+                    cerrs = [canon(p) for p in epaths]
+                    behind = lambda p: any(p.startswith(l + "/") for l, k, _ in nodes if k.startswith("l"))
+                    for lp, k, _d in nodes:
+                        if k in ("lc", "ld") and not behind(lp) and not any(lp.startswith(u + "/") for u in ulist):
+                            if cerrs.count(canon(lp)) != 1:
+                                rep.violation("oracle", "the %s link %r is reported by %d error items, not one" % ("re-entrant" if k == "lc" else "dangling", lp, cerrs.count(canon(lp))), c.describe(), impl=c.impl[:400])
+                                break
+                    else:
+                        rep.stats["one error item per dangling / re-entrant link, naming it"] += 1
     lib.replay_findings(rep, "C20", lambda w: (False, ""))
